@@ -95,6 +95,14 @@ def run(facts, tr, rep):
     for sb0 in sbs:
         for x in _user_calls(tr, sb0):
             ucalls.append((sb0, x))
+    # user code reached through a private synchronous helper (e.g. `config.should_handle(&error)`) runs at the helper's call site
+    for c0 in g.calls():
+        hb0 = tr.local_sync_callee(("call", b.crate.name, b.def_, c0.bb))
+        if hb0 is not None and hb0.crate.name == CRATE:
+            for hd in descendants(facts, hb0):
+                for x in _user_calls(tr, hd):
+                    ucalls.append((b, _Via(x, c0.bb)))
+                    rep.saw(hd)
     rep.floor("C17.user-code-call-sites", len(ucalls), 6)
     for n, (ub, uc) in enumerate(ucalls):
         rep.saw(ub)
@@ -107,7 +115,7 @@ def run(facts, tr, rep):
             sites2 = tr.aggsites((ub.crate.name, ub.def_))
             site = sites2[0][1] if sites2 and sites2[0][0] is b else None
         ok = site is not None and g.edges_dominate(err_edges, site)
-        rep.ob("C17.LAZY", skey(ub, "user-call#%d" % ordinal(graph(ub), uc)), ok, uc.where(),
+        rep.ob("C17.LAZY", skey(ub, "user-call#%d" % n), ok, uc.where(),
                "user-supplied fallback code runs only on the Err edge of the inner result" if ok else
                "user-supplied fallback code (%s) can run although the inner call succeeded or has not been made yet" % uc.path[:70])
     # ---------------------------------------------------------------- GATE
@@ -123,30 +131,82 @@ def run(facts, tr, rep):
     gate_ok = False
     gate_where = g.where(strat_sw.bb)
     false_tgt = None
+
+    def is_err(n):
+        return derives(tr, peel(n), R, variants=("Ready", "Err"))
+
+    def pred_field(n):
+        """n mentions a config field whose type is an optional `dyn Fn(&E) -> bool` (the handle predicate, by type)"""
+        for x in tr.walk(n, limit=60):
+            if x[0] == "field" and x[3] and facts.adt(x[3]) is not None:
+                crate_ = [c_ for c_ in facts.crates.values() if x[3] in c_.adts][0]
+                for f in facts.adt(x[3])["variants"][0]["fields"]:
+                    if f["name"] == x[2]:
+                        t = crate_.types[f["ty"]]["s"]
+                        if "Option<" in t and "Fn(&" in t and "-> bool" in t:
+                            return True
+        return False
+
+    def verdict_leaves(node, depth=0):
+        """(all leaves acceptable?, saw a predicate application on the current error?)"""
+        ok_all, saw = True, False
+        for lf in leaves(node):
+            lf = peel(lf)
+            if lf[0] == "const":
+                if lf[1] != "true":
+                    ok_all = False
+                continue
+            if lf[0] != "call":
+                ok_all = False
+                continue
+            cc = tr.call_of(lf)
+            if cc.name == "unwrap_or" and len(cc.args) == 2:
+                dflt = peel(tr.expand(tr.operand(cc.g.b, cc.args[1], cc.loc), upvars=True))
+                src = tr.expand(tr.operand(cc.g.b, cc.args[0], cc.loc), upvars=True)
+                cur = False
+                for mc in calls_in(tr, src, lambda x: x.name == "map"):
+                    cl = peel(tr.expand(tr.operand(mc.g.b, mc.args[1], mc.loc), upvars=True))
+                    if cl[0] == "agg":
+                        for chn in tr.children(cl):
+                            if is_err(tr.expand(chn, upvars=True)):
+                                cur = True
+                if dflt[0] == "const" and dflt[1] == "true" and pred_field(src) and cur:
+                    saw = True
+                else:
+                    ok_all = False
+                continue
+            if cc.def_ in FN_TRAITS and len(cc.args) == 2:
+                callee = tr.expand(tr.operand(cc.g.b, cc.args[0], cc.loc), upvars=True)
+                args = peel(tr.expand(tr.operand(cc.g.b, cc.args[1], cc.loc), upvars=True))
+                parts = [peel(tr.expand(x, upvars=True)) for x in tr.children(args)] if args[0] == "agg" else []
+                if pred_field(callee) and len(parts) == 1 and is_err(parts[0]):
+                    saw = True
+                else:
+                    ok_all = False
+                continue
+            hb_ = tr.local_sync_callee(lf)
+            if hb_ is not None and hb_.local_ty(0)["s"] == "bool" and depth < 2:
+                with tr.bound(hb_, lf):
+                    for r_ in tr.helper_returns(hb_):
+                        o2, s2 = verdict_leaves(r_, depth + 1)
+                        ok_all = ok_all and o2
+                        saw = saw or s2
+                continue
+            ok_all = False
+        return ok_all, saw
+
     for e in dominating_edges(tr, b, strat_sw.bb):
-        if e["kind"] != "bool":
+        if e["kind"] != "bool" or "via" in e:
             continue
         nd = e["node"]
         neg = False
         while nd[0] == "unop" and nd[1] == "Not":
             neg = not neg
             nd = peel(nd[2])
-        if nd[0] == "call" and tr.call_of(nd).name == "unwrap_or":
-            uc = tr.call_of(nd)
-            dflt = peel(tr.expand(tr.operand(b, uc.args[1], uc.loc)))
-            src = peel(tr.expand(tr.operand(b, uc.args[0], uc.loc)))
-            is_true = dflt[0] == "const" and dflt[1] == "true"
-            from_pred = mentions_field(tr, src, "handle_predicate") and bool(calls_in(tr, src, lambda x: x.name == "map"))
+        ok_all, saw = verdict_leaves(nd)
+        if saw:
             holds = (e["label"] == "true") != neg
-            # the predicate closure is applied to the current error
-            cur = False
-            for mc in calls_in(tr, src, lambda x: x.name == "map"):
-                cl = peel(tr.expand(tr.operand(mc.g.b, mc.args[1], mc.loc)))
-                if cl[0] == "agg":
-                    for chn in tr.children(cl):
-                        if derives(tr, peel(tr.expand(chn)), R, variants=("Ready", "Err")):
-                            cur = True
-            gate_ok = is_true and from_pred and holds and cur
+            gate_ok = ok_all and holds
             false_tgt = e["sw"].variants["true" if neg else "false"]
             gate_where = g.where(e["bb"])
     rep.ob("C17.GATE", skey(b, "predicate-gate"), gate_ok, gate_where,
@@ -232,6 +292,15 @@ def run(facts, tr, rep):
                "strategy %s %s, using its own payload" % (v, detail) if ok else
                "strategy %s does not %s with its own payload and the prescribed arguments" % (v, detail.replace("calls", "call").replace("returns", "return").replace("transforms", "transform")))
     rep.floor("C17.strategy-arms", narm, 6)
+
+
+class _Via:
+    """a user-code call inside a helper, attributed to the block of the helper's call site"""
+    def __init__(self, c, bb):
+        self.c, self.bb, self.path, self.def_, self.self_kind = c, bb, c.path, c.def_, c.self_kind
+
+    def where(self):
+        return self.c.where()
 
 
 def _through_call(tr, node):
